@@ -42,9 +42,9 @@ Section Holds.
   Proof. apply forallb_entry_ok. Qed.
 
   (* ---- kind 0 ---- *)
-  Lemma contains_case : ckind c = KContains -> holds_req c (run_req c) = [].
+  Lemma contains_case : ckind c = KContains -> holds_req0 c (run_req c) = [].
   Proof.
-    intros K. pose proof Rok as R. unfold holds_req, run_req, ref_ok, cmember, cwell_typed, cstage, ceffective in *.
+    intros K. pose proof Rok as R. unfold holds_req0, run_req, ref_ok, cmember, cwell_typed, cstage, ceffective in *.
     rewrite K in *. cbn [ocode ocount is_member exp_well_typed] in *.
     set (r := contains (P4 c) (P6 c) (craise c) (centries c) (cclient c)).
     set (m := member (P4 c) (P6 c) (centries c) (cclient c)) in *.
@@ -79,9 +79,9 @@ Section Holds.
     intros W M. rewrite (membership_spec (P4 c) (P6 c) L4 L6 l cl (wt_forall l W)). now rewrite M.
   Qed.
 
-  Lemma file_case : ckind c = KFile -> holds_req c (run_req c) = [].
+  Lemma file_case : ckind c = KFile -> holds_req0 c (run_req c) = [].
   Proof.
-    intros K. pose proof Rok as R. unfold holds_req, run_req, ref_ok, cmember, cwell_typed, cstage, ceffective, crestricted, granted_code in *.
+    intros K. pose proof Rok as R. unfold holds_req0, run_req, ref_ok, cmember, cwell_typed, cstage, ceffective, crestricted, granted_code in *.
     rewrite K in *. cbn [ocode ocount] in *.
     set (cfg := fcfg_of c) in *. set (env := fenv_of c) in *.
     change (ckey c) with (key_set cfg) in *. change (centries c) with (cfg_list cfg) in *.
@@ -119,9 +119,9 @@ Section Holds.
       rewrite (NL1 eq_refl). cbn. destruct (cref c) as [[|]|]; reflexivity.
   Qed.
 
-  Lemma update_case : ckind c = KUpdate -> holds_req c (run_req c) = [].
+  Lemma update_case : ckind c = KUpdate -> holds_req0 c (run_req c) = [].
   Proof.
-    intros K. pose proof Rok as R. unfold holds_req, run_req, ref_ok, cmember, cwell_typed, cstage, ceffective, crestricted, granted_code in *.
+    intros K. pose proof Rok as R. unfold holds_req0, run_req, ref_ok, cmember, cwell_typed, cstage, ceffective, crestricted, granted_code in *.
     rewrite K in *. cbn [ocode ocount] in *.
     pose proof (deny_before_change_update_f (P4 c) (P6 c) L4 L6 (cbad_body c) (cstore_fault c) (ckey c) (centries c) (cgetd c) (cclient c)) as DB.
     set (r := update_handle_f (P4 c) (P6 c) (cbad_body c) (cstore_fault c) (ckey c) (centries c) (cgetd c) (cclient c)) in *.
@@ -155,6 +155,10 @@ Section Holds.
   Theorem holds_model : holds c (run_model c) = [].
   Proof.
     unfold holds, run_model. destruct (method_refused c); [reflexivity|].
+    unfold holds_req.
+    assert (D : detail_clause c (run_req c) = []).
+    { unfold detail_clause, run_req. destruct (ckind c); [reflexivity| |]; cbn [odetail]; now rewrite implb_true_r. }
+    rewrite D, app_nil_r.
     destruct (ckind c) eqn:K; [now apply contains_case|now apply file_case|now apply update_case].
   Qed.
 End Holds.
